@@ -11,41 +11,36 @@ Definition rt_ok (z : Z) : bool :=
   let '(y, m, d) := civil_from_days z in
   (days_from_civil y m d =? z) && valid_date y m d.
 
-(* all 146097 days of the era starting 0000-03-01 (z = -719468) *)
-Definition era_check : bool :=
-  snd (Pos.iter (fun '(z, ok) => (z + 1, ok && rt_ok z)) (-719468, true) 146097%positive).
+(* P on every z0 <= x < z0 + p, by binary splitting of p (no unary numbers involved) *)
+Fixpoint check_range (P : Z -> bool) (p : positive) (z0 : Z) : bool :=
+  match p with
+  | xH => P z0
+  | xO q => check_range P q z0 && check_range P q (z0 + Z.pos q)
+  | xI q => P z0 && check_range P q (z0 + 1) && check_range P q (z0 + 1 + Z.pos q)
+  end.
 
-Lemma era_ok : era_check = true.
+Lemma check_range_spec P p : forall z0, check_range P p z0 = true ->
+  forall x, z0 <= x < z0 + Z.pos p -> P x = true.
+Proof.
+  induction p as [q IH|q IH|]; intros z0 H x Hx; cbn [check_range] in H.
+  - apply andb_true_iff in H. destruct H as [H H3]. apply andb_true_iff in H. destruct H as [H1 H2].
+    destruct (Z.eq_dec x z0) as [->|Hne]; [exact H1|].
+    destruct (Z_lt_ge_dec x (z0 + 1 + Z.pos q)).
+    + apply (IH _ H2). lia.
+    + apply (IH _ H3). lia.
+  - apply andb_true_iff in H. destruct H as [H1 H2].
+    destruct (Z_lt_ge_dec x (z0 + Z.pos q)).
+    + apply (IH _ H1). lia.
+    + apply (IH _ H2). lia.
+  - replace x with z0 by lia. exact H.
+Qed.
+
+(* all 146097 days of the era starting 0000-03-01 (z = -719468) *)
+Lemma era_ok : check_range rt_ok 146097 (-719468) = true.
 Proof. vm_compute. reflexivity. Qed.
 
-(* Pos.iter of a counting loop: the accumulated conjunction covers every step *)
-Lemma nat_iter_count (P : Z -> bool) (k : nat) (z0 : Z) (b0 : bool) :
-  Nat.iter k (fun '(z, ok) => (z + 1, ok && P z)) (z0, b0) =
-  (z0 + Z.of_nat k, b0 && forallb P (map (fun i => z0 + Z.of_nat i) (seq 0 k))).
-Proof.
-  set (F := fun '(z, ok) => (z + 1, ok && P z)).
-  induction k as [|k IH].
-  - simpl. rewrite Z.add_0_r, andb_true_r. reflexivity.
-  - change (Nat.iter (S k) F (z0, b0)) with (F (Nat.iter k F (z0, b0))).
-    rewrite IH, seq_S, map_app, forallb_app. unfold F. cbn [map forallb plus].
-    rewrite andb_true_r, andb_assoc. f_equal. lia.
-Qed.
-
-Lemma iter_count_spec (P : Z -> bool) (n : positive) (z0 : Z) (b0 : bool) :
-  Pos.iter (fun '(z, ok) => (z + 1, ok && P z)) (z0, b0) n =
-  (z0 + Z.pos n, b0 && forallb P (map (fun k => z0 + Z.of_nat k) (seq 0 (Pos.to_nat n)))).
-Proof.
-  rewrite Pos2Nat.inj_iter, <- (positive_nat_Z n). apply nat_iter_count.
-Qed.
-
 Lemma era_each z : -719468 <= z < -719468 + 146097 -> rt_ok z = true.
-Proof.
-  intros Hz. pose proof era_ok as H. unfold era_check in H.
-  rewrite iter_count_spec in H. simpl snd in H.
-  rewrite forallb_forall in H. apply H.
-  apply in_map_iff. exists (Z.to_nat (z + 719468)). split; [lia|].
-  apply in_seq. lia.
-Qed.
+Proof. intros Hz. apply (check_range_spec _ _ _ era_ok). lia. Qed.
 
 (* ---- periodicity: 400 years = 146097 days ---- *)
 Lemma dfc_shift y m d k : days_from_civil (y + 400 * k) m d = days_from_civil y m d + 146097 * k.
@@ -133,3 +128,51 @@ Proof. unfold diy. destruct (is_leap y); lia. Qed.
 (* days_from_civil is linear in the day of the month *)
 Lemma dfc_day_linear y m d k : days_from_civil y m (d + k) = days_from_civil y m d + k.
 Proof. unfold days_from_civil. lia. Qed.
+
+
+(* ---- the other direction: a valid date survives the trip through its day number ---- *)
+(* index i = y*372 + (m-1)*31 + (d-1) over the 400 years 0..399 *)
+Definition rt2_ok (i : Z) : bool :=
+  let y := i / 372 in let m := (i mod 372) / 31 + 1 in let d := i mod 31 + 1 in
+  negb (valid_date y m d) ||
+  (let '(y', m', d') := civil_from_days (days_from_civil y m d) in (y' =? y) && (m' =? m) && (d' =? d)).
+
+Lemma era2_ok : check_range rt2_ok 148800 0 = true.
+Proof. vm_compute. reflexivity. Qed.
+
+Theorem civil_from_days_from_civil y m d :
+  valid_date y m d = true -> civil_from_days (days_from_civil y m d) = (y, m, d).
+Proof.
+  intros Hv.
+  set (k := y / 400). set (y0 := y - 400 * k).
+  assert (Hy0 : 0 <= y0 < 400) by (unfold y0, k; lia).
+  assert (Hv0 : valid_date y0 m d = true).
+  { unfold valid_date in *. replace y with (y0 + 400 * k) in Hv by (unfold y0; lia).
+    rewrite dim_shift in Hv. exact Hv. }
+  assert (Hb : 1 <= m <= 12 /\ 1 <= d <= 31).
+  { unfold valid_date in Hv0. pose proof (dim_bounds y0 m) as Hd.
+    repeat (apply andb_true_iff in Hv0; destruct Hv0 as [Hv0 ?]).
+    repeat match goal with H : (_ <=? _) = true |- _ => apply Z.leb_le in H end.
+    generalize dependent (dim y0 m). intros. lia. }
+  set (i := y0 * 372 + (m - 1) * 31 + (d - 1)).
+  assert (Hi : 0 <= i < 0 + 148800) by (unfold i; lia).
+  pose proof (check_range_spec _ _ _ era2_ok i Hi) as H.
+  unfold rt2_ok in H.
+  replace (i / 372) with y0 in H by (unfold i; lia).
+  replace (i mod 372 / 31 + 1) with m in H by (unfold i; lia).
+  replace (i mod 31 + 1) with d in H by (unfold i; lia).
+  rewrite Hv0 in H. cbn [negb orb] in H.
+  replace y with (y0 + 400 * k) by (unfold y0; lia).
+  rewrite dfc_shift, cfd_shift.
+  destruct (civil_from_days (days_from_civil y0 m d)) as [[y' m'] d'].
+  apply andb_true_iff in H. destruct H as [H H3]. apply andb_true_iff in H. destruct H as [H1 H2].
+  apply Z.eqb_eq in H1, H2, H3. subst. reflexivity.
+Qed.
+
+Corollary days_from_civil_inj y m d y' m' d' :
+  valid_date y m d = true -> valid_date y' m' d' = true ->
+  days_from_civil y m d = days_from_civil y' m' d' -> (y, m, d) = (y', m', d').
+Proof.
+  intros H1 H2 E. rewrite <- (civil_from_days_from_civil _ _ _ H1), E.
+  apply civil_from_days_from_civil. exact H2.
+Qed.
